@@ -110,7 +110,7 @@ def one_centre(chk, repo, rule):
                 break
             S.stmt(s_, st)
         it = S.k(il.iter, st)
-        want_it = ('call', ('name', 'set'), (('comp', 'list',
+        want_it = ('call', ('name', 'set'), (('comp', 'gen',
                    ('sub', ('bv', 1), ('num', Fraction(0))),
                    ((('bv', 1), ('call', ('attr', ('sub', ('bv', 0),
                     ('const', 'connectivity')), 'GetQueryMatches'),
@@ -328,10 +328,13 @@ def remap_blocks(chk, repo, rule):
                 stores = [e for e in body[0][0] if e[0] == 'store']
                 ent = gens[0][0]
                 want_t = ('sub', D, ('sub', ent, ('num', Fraction(1))))
-                want_v = (Poly.atom(n) * Poly.atom(
+                # n is the count popped before the entry loop (a snapshot:
+                # the loop changes the mapping it was popped from)
+                want_v = [(Poly.atom(nn) * Poly.atom(
                     ('sub', ent, ('num', Fraction(0))))).key()
+                    for nn in (n, ('snapshot', n))]
                 good = (len(augs) == 1 and augs[0][1] == want_t
-                        and augs[0][2] == 'Add' and augs[0][3] == want_v)
+                        and augs[0][2] == 'Add' and augs[0][3] in want_v)
                 if not good:
                     problems.append('entry effect: %s' % (
                         ['%s %s= %s' % (show(a[1]), a[2], show(a[3]))
